@@ -209,12 +209,17 @@ class SyncInterpreter(BaseInterpreter[TContext, TEvent]):
         self._is_processing = True
         try:
             self._enter_states([self.machine])
+            # 🔄 Settle immediate "always" transitions while still behind the
+            #    guard, and BEFORE draining. An eventless transition is part of
+            #    the initial macrostep: run unguarded, anything it raised or
+            #    any `done.*` it produced was processed re-entrantly from
+            #    inside the half-finished transition. This is also the order
+            #    the async engine uses (enter, settle, then queued events).
+            self._process_transient_transitions()
         finally:
             self._is_processing = False
-        # 📬 Drain anything an entry action raised during that descent.
+        # 📬 Drain anything raised during entry or the initial settle.
         self._process_event_queue()
-        # 🔄 Process any immediate "always" transitions upon startup.
-        self._process_transient_transitions()
 
         # Capture the post-transition state set after initialization
         post_states = set(self._active_state_nodes)
